@@ -7,11 +7,6 @@ import SwimVerif.Proofs.ReconEqCmp
 namespace SwimVerif.ReconEq
 open SwimVerif.Recon
 
-/-- Feed a list of events. -/
-def feedAll (v : VV) : List Event → VV
-  | [] => v
-  | e :: es => feedAll (v.feed e).1 es
-
 theorem feedAll_append (v : VV) (a b : List Event) : feedAll v (a ++ b) = feedAll (feedAll v a) b := by
   induction a generalizing v with
   | nil => rfl
